@@ -313,9 +313,10 @@ class PeptidePoolSummarizer():
                     # Ignore it if the source isn't present in any GVF given.
                     if any(not self.summary_table.has_source(k) for k in comb):
                         continue
-                if self.contains_exclusive_sources(comb):
-                    continue
                 key = frozenset(comb)
+                if self.contains_exclusive_sources(comb) \
+                        and key not in self.summary_table.data:
+                    continue
                 record = self.summary_table.get_stringified_summary_entry(key, self.order)
                 handle.write(record + '\n')
 
